@@ -342,6 +342,25 @@ example : (∀ l ∈ ["  # Greet the user,".toList, [], "  # warmly.".toList], s
   · exact Or.inr ⟨" warmly.".toList, by decide⟩
 
 open NemoVerif.NumberedLines in
+/-- … and with one-line `\"\"\"…\"\"\"` comments in the block as well (`commentOfB`: such a comment REPLACES what was gathered so far, `#` lines after
+    it are appended) - again wherever the blank lines are. -/
+theorem numbered_lines_comment_block_attach (pre post block : List Str) (stmt : Str)
+    (st' : NumberedLines.St) (out : List Rec) (hpre : runPre NumberedLines.St.init pre = .ok (st', out))
+    (hB : st'.atBoundary = true) (hml : st'.mlComment = false)
+    (hblock : ∀ l ∈ block, strip l = [] ∨ (∃ c, strip l = '#' :: c) ∨ ∃ body, oneLineBlock (strip l) = some body)
+    (hs : plainStmt (strip stmt) = true) :
+    numbered (pre ++ (block ++ stmt :: post)) =
+      (run { st' with comment := none, pending := none } post).map fun rest =>
+        out ++ { text := firstPart (strip stmt), indentation := lead stmt, comment := commentOfB st'.comment block } :: rest :=
+  numbered_comment_block_attach pre post block stmt st' out hpre hB hml hblock hs
+
+open NemoVerif.NumberedLines in
+/-- non-vacuity (finite facts): a one-line block is recognised and replaces the `#` comment gathered before it. -/
+example : oneLineBlock "\"\"\"Greet warmly\"\"\"".toList = some "Greet warmly".toList ∧
+    commentOfB none ["# old".toList, [], "  \"\"\"Greet warmly\"\"\"".toList, "# and briefly".toList] = some "Greet warmly\nand briefly".toList := by
+  decide
+
+open NemoVerif.NumberedLines in
 /-- kernel-checked witnesses (finite facts) that the hypothesis `atBoundary` of `numbered_lines_blank` is needed: a blank line between a line
     ending in ` or` and its continuation, or inside a multi-line string, changes the records. -/
 theorem numbered_lines_blank_boundary_witness :
